@@ -210,6 +210,7 @@ func tokenState(p string, now time.Time) string {
 }
 
 func parseLog(path string) (entries []logEntry, rets []int, guards int) {
+	entries = []logEntry{}
 	data, _ := os.ReadFile(path)
 	for _, ln := range strings.Split(string(data), "\n") {
 		f := splitQuoted(ln)
@@ -405,7 +406,7 @@ func runRow(t *testing.T, r *row) {
 		go func() {
 			// "the application is alive" until the uploader half ran the go command
 			if r.Hold {
-				for i := 0; i < 400; i++ {
+				for i := 0; i < 1500; i++ {
 					data, _ := os.ReadFile(logPath)
 					if strings.Contains(string(data), " go ") {
 						break
@@ -480,7 +481,7 @@ func runRow(t *testing.T, r *row) {
 			}
 		}
 	}
-	var changed []string
+	changed := []string{}
 	classes := map[string]bool{}
 	classify := func(p string) string {
 		rel, err := filepath.Rel(tdir, p)
